@@ -11,9 +11,11 @@ import json, os, shutil, subprocess, sys, time
 
 pid, n = sys.argv[1], sys.argv[2]
 checks = sys.argv[3:] or [pid]
-wt = f"/tmp/seed/{pid}"
+base = os.environ.get("SEED_DIR", "/tmp/seed")
+off = int(os.environ.get("SEED_OFFSET", "0"))   # round 2: stored as <ID>-3, <ID>-4
+wt = f"{base}/{pid}"
 src = f"{wt}/seed/change{n}"
-dst = f"/verif/seeded/{pid}-{n}"
+dst = f"/verif/seeded/{pid}-{int(n) + off}"
 env = dict(os.environ, PYTHONPATH=f"{wt}/src", TF_CPP_MIN_LOG_LEVEL="3")
 
 def sh(cmd, **kw):
